@@ -497,4 +497,15 @@ theorem nv_ac_model_equiv :
       ∃ x, (∀ i, i ∉ sHidden acAlloc → x i = y i) ∧ Laws Kind.ivp (Complex.I * 2) (acAlloc.map (·.c)) x) :=
   ac_model_equiv Complex.I (2 : ℂ) Complex.I_mul_I (by simp) acAlloc nv_ac_ok nv_ac_apart
 
+/-- (owner's follow-up) `ac_model_equiv_noic`: the same netlist has no initial conditions, so phasor analysis (`Kind.lap`
+    at s = jω) of the netlist and of its ac model agree -/
+theorem nv_ac_model_equiv_noic :
+    (∀ x, Laws Kind.lap (Complex.I * 2) (acAlloc.map (·.c)) x →
+      ∃ y, (∀ i, i ∉ sHidden acAlloc → y i = x i) ∧ Laws Kind.lap (Complex.I * 2) (sModel (Complex.I * 2) acAlloc) y) ∧
+    (∀ y, Laws Kind.lap (Complex.I * 2) (sModel (Complex.I * 2) acAlloc) y →
+      ∃ x, (∀ i, i ∉ sHidden acAlloc → x i = y i) ∧ Laws Kind.lap (Complex.I * 2) (acAlloc.map (·.c)) x) :=
+  ac_model_equiv_noic Complex.I (2 : ℂ) Complex.I_mul_I (by simp) acAlloc nv_ac_ok nv_ac_apart
+    (by intro a ha; simp only [acAlloc, List.mem_cons, List.mem_nil_iff, or_false] at ha
+        rcases ha with rfl | rfl | rfl <;> rfl)
+
 end Lcapy.NonVacuity.C05
